@@ -219,6 +219,10 @@ func runCase(r *mon.Run, fx *fixture, ca *tlspeer.CA, realECH []byte, i int, rng
 	if cs.Cfg.H2 {
 		tr.TLSConfig.NextProtos = []string{"h2", "http/1.1"}
 	}
+	if i%2 == 1 {
+		// Transport.Dialer is an exported field: an application may install its own Dialer
+		tr.Dialer = ech.NewDialer()
+	}
 	tr.Dialer.DialFunc = w.tlsDial
 	tr.Dialer.MaxConcurrency = cs.Cfg.MaxConc
 	tr.Dialer.ConcurrencyDelay = time.Duration(cs.Cfg.DelayMs) * time.Millisecond
